@@ -427,32 +427,32 @@ theorem PathOK.from_any {c : Cfg} {E : Ecu} {σ : List Sess} (h : PathOK c E σ)
     exact ⟨hd x, h2⟩
 
 theorem probeOne_noabort (c : Cfg) (E : Ecu) (σ : List Sess) (acc : St × Bool) (s : Sess)
-    (hval : ∀ x, ValidPath (edge c E) (x :: σ)) (hab : acc.1.aborted = false) :
+    (hrl : ResetLegal c E) (hval : ∀ x, ValidPath (edge c E) (x :: σ)) (hab : acc.1.aborted = false) :
     (probeOne c E σ acc s).1.aborted = false := by
   rw [probeOne_eq, if_neg (by simp [hab])]
   by_cases hs : s ∈ c.skip
   · rw [if_pos hs]; exact hab
-  · rw [if_neg hs, if_neg (by simp [prepare_ok c E σ acc hval])]
+  · rw [if_neg hs, if_neg (by simp [prepare_ok c E σ acc hrl hval])]
     have := (classify_spec c σ s (dsc c E .probe (top σ) s (prepare c E σ acc).1)).1
     rw [this, (dsc_same ..).2.2.2.2, (prepare_same ..).2.2.2.2]
     exact hab
 
 theorem probeFold_noabort (c : Cfg) (E : Ecu) (σ ls : List Sess) (acc : St × Bool)
-    (hval : ∀ x, ValidPath (edge c E) (x :: σ)) (hab : acc.1.aborted = false) :
+    (hrl : ResetLegal c E) (hval : ∀ x, ValidPath (edge c E) (x :: σ)) (hab : acc.1.aborted = false) :
     (ls.foldl (probeOne c E σ) acc).1.aborted = false := by
   induction ls generalizing acc with
   | nil => exact hab
-  | cons s ls ih => rw [List.foldl_cons]; exact ih _ (probeOne_noabort c E σ acc s hval hab)
+  | cons s ls ih => rw [List.foldl_cons]; exact ih _ (probeOne_noabort c E σ acc s hrl hval hab)
 
-theorem processStack_noabort (c : Cfg) (E : Ecu) (st : St) (σ : List Sess)
+theorem processStack_noabort (c : Cfg) (E : Ecu) (st : St) (σ : List Sess) (hrl : ResetLegal c E)
     (hval : ∀ x, ValidPath (edge c E) (x :: σ)) (hab : st.aborted = false) :
     (processStack c E st σ).aborted = false := by
   rw [processStack_eq, if_neg (by simp [hab])]
   split
   · exact hab
-  · exact probeFold_noabort c E σ sessions _ hval hab
+  · exact probeFold_noabort c E σ sessions _ hrl hval hab
 
-theorem processFold_noabort (c : Cfg) (E : Ecu) (L : List (List Sess)) (st : St)
+theorem processFold_noabort (c : Cfg) (E : Ecu) (L : List (List Sess)) (st : St) (hrl : ResetLegal c E)
     (hL : ∀ σ ∈ L, ∀ x, ValidPath (edge c E) (x :: σ)) (hab : st.aborted = false) :
     (L.foldl (processStack c E) st).aborted = false := by
   induction L generalizing st with
@@ -460,9 +460,9 @@ theorem processFold_noabort (c : Cfg) (E : Ecu) (L : List (List Sess)) (st : St)
   | cons σ L ih =>
     rw [List.foldl_cons]
     exact ih _ (fun τ hτ => hL τ (List.mem_cons_of_mem _ hτ))
-      (processStack_noabort c E st σ (hL σ (List.mem_cons_self ..)) hab)
+      (processStack_noabort c E st σ hrl (hL σ (List.mem_cons_self ..)) hab)
 
-theorem scanLoop_noabort (c : Cfg) (E : Ecu) (hd : DefaultReentry (edge c E)) (n j : Nat) (st : St)
+theorem scanLoop_noabort (c : Cfg) (E : Ecu) (hd : DefaultReentry (edge c E)) (hrl : ResetLegal c E) (n j : Nat) (st : St)
     (hab : st.aborted = false) (inv : LvlInv c E j st) : (scanLoop c E n st).aborted = false := by
   induction n generalizing j st with
   | zero => exact hab
@@ -472,7 +472,7 @@ theorem scanLoop_noabort (c : Cfg) (E : Ecu) (hd : DefaultReentry (edge c E)) (n
     · exact hab
     · have h1 : (level c E st).aborted = false := by
         unfold level
-        exact processFold_noabort c E st.found _ (fun σ hσ => (inv.found_ok σ hσ).1.from_any hd) hab
+        exact processFold_noabort c E st.found _ hrl (fun σ hσ => (inv.found_ok σ hσ).1.from_any hd) hab
       rcases level_spec c E j st hab inv with h2 | ⟨i1, _, _, _⟩
       · rw [h1] at h2; cases h2
       · exact ih (j + 1) _ h1 i1
